@@ -15,7 +15,7 @@ import re
 import genb
 from vlib import rnd_u64, U64, xhex
 
-THEOREMS = ["C13_received_report_refers", "C13_depends_only_on_ident", "C13_injective_outside_known", "C13_iff_outside_known", "C13_refuted", "C13_fragment_collides",
+THEOREMS = ["C13_builder_route", "C13_received_report_refers", "C13_depends_only_on_ident", "C13_injective_outside_known", "C13_iff_outside_known", "C13_refuted", "C13_fragment_collides",
             "C13_known_none_name_narrow", "C13_refbundle"]
 REPEAT = 2            # case lines repeated 66 000 times on one thread (state that builds up over many calls)
 REPEAT_CMDS = ('ID',)
